@@ -599,9 +599,11 @@ def gen_cases(rng, tier_quick, only=None):
         "limits": [["-sqrt(1 - v**2)", "sqrt(1 - v**2)"], ["-1", "1"]],
         "boundary": circle_boundary(1, 1, sympy.sympify("cos(t)*sin(t)", locals={"t": T}))})
     # a two-component field that mentions z, over a surface whose normal is not vertical
-    add({"kind": "stokes", "field": [S(COEF[0] * Z + Y + rand_mono(rng, [X, Y, Z], 2)), S(X * Z + rand_mono(rng, [X, Z], 2))],
-        "surface": [S(U * cos(V)), S(U * sin(V)), S(1 - U**2)], "limits": [["0", "1"], ["0", S(2 * pi)]],
-        "boundary": circle_boundary(1, 1, sympy.Integer(0))})
+    for p2 in ("lambda", "from_vector"):
+        add({"kind": "stokes", "path": p2,
+            "field": [S(COEF[0] * Z + Y + rand_mono(rng, [X, Y], 2)), S(X * Z + COEF[1] * Z + rand_mono(rng, [X, Y], 2))],
+            "surface": [S(U * cos(V)), S(U * sin(V)), S(1 - U**2)], "limits": [["0", "1"], ["0", S(2 * pi)]],
+            "boundary": circle_boundary(1, 1, sympy.Integer(0))})
     # stored value lists of constants
     add({"kind": "stokes", "path": "list", "field": ["a", "b", "2"], "surface": [S(U * cos(V)), S(2 * U * sin(V)), S(U**2)],
         "limits": [["0", "1"], ["0", S(2 * pi)]], "boundary": circle_boundary(1, 2, sympy.Integer(1))})
